@@ -213,7 +213,7 @@ def clock_stub(b):
     return clk
 
 
-def device(b, name, fail=False, color=None, power=None):
+def device(b, name, fail=False, color=None, power=None, features=None):
     """lifxlan device stub. Every request is appended to ghost Dev as (device, method, args...).
     Argument ranges demanded by the LIFX protocol are obligations at the call."""
     I = b.I
@@ -222,6 +222,9 @@ def device(b, name, fail=False, color=None, power=None):
     dev.native = {'kind': 'device'}
 
     def maybe_fail(I_):
+        I_.ghost['attempts'] = I_.ghost.get('attempts', 0) + 1
+        if fail == 'other':
+            I_.raise_builtin('ValueError', 'not a network fault')
         if fail:
             if I_.branch(I_.fresh('bool', 'fault').t):
                 raise PyRaise(PyObj(wf, {'__args__': ('no response',)}))
@@ -293,8 +296,25 @@ def device(b, name, fail=False, color=None, power=None):
         record(I_, 'get_power')
         return power if power is not None else 0
 
+    def simple(name_, value):
+        def f(I_, o, a, k):
+            maybe_fail(I_)
+            return value(I_) if callable(value) else value
+        return f
+
+    def get_color_zones(I_, o, a, k):
+        maybe_fail(I_)
+        record(I_, 'get_color_zones')
+        return PyList([PyList([0, 0, 0, 0]) for _ in range(3)])
+
     dev.methods.update(set_color=set_color, set_power=set_power, set_zone_color=set_zone_color,
-                       fire_and_forget=fire_and_forget, get_color=get_color, get_power=get_power)
+                       fire_and_forget=fire_and_forget, get_color=get_color, get_power=get_power,
+                       get_label=simple('get_label', lambda I_: I_.fresh('str', 'label')),
+                       get_group=simple('get_group', lambda I_: I_.fresh('str', 'group')),
+                       get_location=simple('get_location', lambda I_: I_.fresh('str', 'location')),
+                       get_product_name=simple('get_product_name', 'bulb'),
+                       get_product_features=simple('get_product_features', lambda I_: PyDict(dict(features or {}))),
+                       get_color_zones=get_color_zones)
     return dev
 
 
